@@ -6,3 +6,9 @@ void verif_register_string(const char *p, size_t len){
   __CPROVER_assert(verif_nstr < VERIF_NSTR, "harness: string table has room");
   verif_str[verif_nstr].obj = p; verif_str[verif_nstr].len = len; verif_nstr++;
 }
+/* DFCC havocs statics of the program under analysis: every harness starts with this */
+void verif_ghost_init(void){
+  verif_nstr = 0;
+  verif_str[0].obj = 0; verif_str[1].obj = 0; verif_str[2].obj = 0; verif_str[3].obj = 0;
+  verif_str[4].obj = 0; verif_str[5].obj = 0; verif_str[6].obj = 0; verif_str[7].obj = 0;
+}
